@@ -4,7 +4,11 @@ package main
 // boundary class of one of the properties: topic shapes, failure x cancellation, shutdown
 // races, cancellation instants, replayer faults and sequential fault histories, message shapes,
 // resuming with Last-Event-ID, resuming after expiry and the application's own GC()) filled in
-// randomly, plus a fully random mix.  In every class some messages carry no data (sprinkleBlank).
+// randomly, plus a fully random mix.  In every class some messages carry no data (sprinkleBlank), some Publish
+// calls publish a message object that was published before (sprinkleSame), the scripted errors come in all
+// characters (werr / perr: plain, Timeout(), wrapping sentinels, the subscriber's own context error ...; a Put
+// error alone or together with the message), and the scenarios of the joe family that do not script the replayer
+// wrapper also run against a Joe with no Replayer at all (noReplayer).
 // All randomness comes from c.R.
 
 import (
@@ -57,6 +61,31 @@ func (g *jgen) topics(n, universe int) []uint64 {
 }
 
 func jZeros(n int) []uint64 { return make([]uint64, n) }
+
+var jErrKindName = []string{"plain", "Temporary()", "Timeout()", "wraps-os.ErrDeadlineExceeded", "wraps-context.DeadlineExceeded",
+	"wraps-context.Canceled", "*net.OpError", "own-ctx.Err()-itself", "own-ctx.Err()-wrapped-%w", "own-ctx.Err()-in-scripted-value"}
+
+// errOf draws a scripted error verdict: a small number, half of the time plain, else of one of the first `kinds`
+// characters (see jErr).
+func (g *jgen) errOf(kinds int) uint64 {
+	kind := 0
+	if g.r.Bool() {
+		kind = 1 + g.r.Intn(kinds-1)
+	}
+	return uint64(100 + 10*kind + g.r.Intn(5))
+}
+
+// werr: the error of a call that belongs to a subscriber (its writer's Send / Flush, the Replay for it).
+func (g *jgen) werr() uint64 { return g.errOf(jErrKinds) }
+
+// perr: the error of a Put, returned alone or - half of the time - together with the message.
+func (g *jgen) perr() uint64 {
+	v := g.errOf(jErrKindsAny)
+	if g.r.Bool() {
+		v += 200
+	}
+	return v
+}
 
 func jToks(s *jScenario) int {
 	n := 0
@@ -154,6 +183,7 @@ func (g *jgen) countScenario(fam, class string, s *jScenario) {
 		for k, v := range x.script {
 			if v >= 100 {
 				fail = true
+				seen["writer-error:"+jErrKindName[jErrKind(v)]] = true
 				if k%2 == 0 {
 					seen["writer-fails-at-even-call"] = true
 				} else {
@@ -163,6 +193,9 @@ func (g *jgen) countScenario(fam, class string, s *jScenario) {
 		}
 		if fail && x.selfCancel {
 			seen["writer-cancels-own-ctx"] = true
+		}
+		if fail && s.kind == 4 && len(s.subs) > 1 {
+			seen["no-replayer+failing-subscriber+others"] = true
 		}
 		if fail && x.hasCancel {
 			seen["failure+external-cancel"] = true
@@ -182,19 +215,35 @@ func (g *jgen) countScenario(fam, class string, s *jScenario) {
 	for _, v := range s.putScript {
 		if v == 98 {
 			seen["put-panics"] = true
-		} else if v >= 100 {
+		} else if v >= 100 && s.kind != 4 {
 			seen["put-errors"] = true
+			seen["put-error:"+jErrKindName[jErrKind(v)]] = true
+			if v >= 300 {
+				seen["put-returns-message-AND-error"] = true
+			} else {
+				seen["put-returns-nil-and-error"] = true
+			}
 		}
 	}
 	for _, v := range s.repScript {
 		if v == 98 {
 			seen["replay-panics"] = true
-		} else if v >= 100 {
+		} else if v >= 100 && s.kind != 4 {
 			seen["replay-errors"] = true
+			seen["replay-error:"+jErrKindName[jErrKind(v)]] = true
 		}
+	}
+	if s.kind == 4 {
+		seen["no-replayer(Joe.Replayer==nil)"] = true
 	}
 	for _, t := range s.pubs {
 		for _, m := range t.msgs {
+			if m.same != 0 {
+				seen["same-message-object-published-again"] = true
+				if s.kind >= 1 && s.kind <= 3 && s.auto != 0 {
+					seen["same-message-object-published-again+id-assigning-replayer"] = true
+				}
+			}
 			if m.shape != 0 {
 				seen["message-without-data"] = true
 				if !m.idopt.Present() {
@@ -235,8 +284,91 @@ func (g *jgen) sprinkleBlank(s *jScenario) {
 	}
 }
 
+// sprinkleSame: in one scenario of four some Publish calls publish the SAME *sse.Message object as an earlier call
+// of their thread (a prebuilt heartbeat / "refresh" message).  What Joe owes a Publish call does not depend on
+// whether the object was published before.  Only where every call is still its own event: the object carries no
+// ID of its own, or nothing stores events by ID (no replayer / the scripted wrapper alone).
+func (g *jgen) sprinkleSame(s *jScenario) {
+	if !g.r.Chance(1, 4) {
+		return
+	}
+	for t := range s.pubs {
+		msgs := s.pubs[t].msgs
+		for k := 1; k < len(msgs); k++ {
+			if msgs[k].same != 0 || !g.r.Chance(1, 2) {
+				continue
+			}
+			src := g.r.Intn(k)
+			if msgs[src].same != 0 {
+				src = int(msgs[src].same - 1)
+			}
+			if (msgs[src].idopt.Present() || msgs[k].idopt.Present()) && s.kind != 0 && s.kind != 4 {
+				continue
+			}
+			msgs[k].same, msgs[k].idopt, msgs[k].shape = uint64(src+1), msgs[src].idopt, msgs[src].shape
+		}
+	}
+}
+
+func jNoFault(script []uint64) bool {
+	for _, v := range script {
+		if v == 98 || v >= 100 {
+			return false
+		}
+	}
+	return true
+}
+
+// jUsesRepEvents: some park or wait of the scenario is keyed to the wrapper's Put / Replay records.
+func jUsesRepEvents(s *jScenario) bool {
+	in := func(c jCond) bool {
+		for _, st := range c {
+			if st.code == 40 || st.code == 41 {
+				return true
+			}
+		}
+		return false
+	}
+	for _, p := range s.parks {
+		if p.point == 40 || p.point == 41 || in(p.stages) {
+			return true
+		}
+	}
+	for _, x := range s.subs {
+		if in(x.start) || in(x.cancel) {
+			return true
+		}
+	}
+	for _, t := range s.pubs {
+		if in(t.start) {
+			return true
+		}
+		for _, m := range t.msgs {
+			if in(m.pre) {
+				return true
+			}
+		}
+	}
+	for _, h := range s.shuts {
+		if in(h.start) || in(h.cancel) {
+			return true
+		}
+	}
+	return false
+}
+
+// noReplayer: every class of the joe family also runs against a Joe with NO Replayer configured (the zero value,
+// the most common configuration) wherever the scenario does not script the wrapper: one in three of those.
+func (g *jgen) noReplayer(fam string, s *jScenario) {
+	if fam == "joe" && s.kind == 0 && jNoFault(s.putScript) && jNoFault(s.repScript) && !jUsesRepEvents(s) && g.r.Chance(1, 3) {
+		s.kind, s.putScript, s.repScript = 4, nil, nil
+	}
+}
+
 func (g *jgen) emit(fam, class string, s *jScenario) {
 	g.sprinkleBlank(s)
+	g.sprinkleSame(s)
+	g.noReplayer(fam, s)
 	g.countScenario(fam, class, s)
 	g.c.Emit(val.L(s.enc()))
 }
@@ -339,11 +471,16 @@ func (g *jgen) tplTopics(maxSubs int) *jScenario {
 
 // ---- (b) failure x cancellation ------------------------------------------------------------------
 
-func (g *jgen) tplFail(maxSubs int) *jScenario {
+// late: the directed class "the failed subscriber's unsubscription still reaches the loop": the failing call ends
+// the subscriber's own context, its Subscribe is held at sub.ctx until the loop has reported the failure, removed it
+// and is idle again - then both cases of its last select are ready, and when it hands the unsubscription in the loop
+// meets a subscriber it has removed already (loop.remove.skip).  Afterwards further publishes go to the one or two
+// subscribers that remain.
+func (g *jgen) tplFail(maxSubs int, late bool) *jScenario {
 	s := g.base()
 	topic := uint64(g.r.Intn(3))
 	k := g.r.Intn(6) // index of the failing call: even = a Send, odd = the Flush after a successful Send
-	code := uint64(100 + g.r.Intn(5))
+	code := g.werr()
 	f := jSubSpec{topics: []uint64{topic}, script: append(jZeros(k), code), selfCancel: g.r.Chance(2, 3)}
 	if g.r.Chance(1, 3) {
 		f.topics = append(f.topics, topic+1)
@@ -353,7 +490,11 @@ func (g *jgen) tplFail(maxSubs int) *jScenario {
 	if k%2 == 1 {
 		failCallCode = 39
 	}
-	switch g.r.Intn(6) {
+	cancelAt := g.r.Intn(6)
+	if late {
+		f.selfCancel, cancelAt = true, 0
+	}
+	switch cancelAt {
 	case 1:
 		f.hasCancel, f.cancel = true, jEvN(failCallCode, 0, failCallNth)
 	case 2:
@@ -366,19 +507,26 @@ func (g *jgen) tplFail(maxSubs int) *jScenario {
 		f.hasCancel, f.cancel = true, jEv(12, failMsg)
 	}
 	s.subs = append(s.subs, f)
-	for i, n := 1, g.r.Intn(maxSubs); i <= n; i++ {
+	nothers := g.r.Intn(maxSubs)
+	if late {
+		nothers = 1 + g.r.Intn(2)
+	}
+	for i := 1; i <= nothers; i++ {
 		x := jSubSpec{topics: []uint64{topic}}
 		if g.r.Chance(1, 3) {
 			x.topics = []uint64{topic + 2, topic}
 		}
-		if g.r.Chance(1, 5) {
-			x.script = append(jZeros(g.r.Intn(6)), 100+uint64(g.r.Intn(5)))
+		if !late && g.r.Chance(1, 5) {
+			x.script = append(jZeros(g.r.Intn(6)), g.werr())
 			x.selfCancel = g.r.Bool()
 		}
 		s.subs = append(s.subs, x)
 	}
 	nsubs := uint64(len(s.subs))
 	total := k/2 + 2 + g.r.Intn(3)
+	if late {
+		total++
+	}
 	var start jCond
 	if g.r.Chance(4, 5) {
 		start = jEvN(34, jAny, nsubs)
@@ -399,7 +547,10 @@ func (g *jgen) tplFail(maxSubs int) *jScenario {
 		if g.r.Chance(1, 4) {
 			m.topics = []uint64{topic + 1, topic}
 		}
-		if j == k/2+1 && g.r.Chance(1, 2) {
+		switch {
+		case j == k/2+1 && late, j == k/2+1 && g.r.Chance(1, 6):
+			m.pre = jEv(30, 0) // a further publish once the failed subscriber's late unsubscription was handled
+		case j == k/2+1 && g.r.Chance(1, 2):
 			m.pre = jEv(29, 0) // a further publish once the failed subscriber was removed
 		}
 		s.pubs[t].msgs = append(s.pubs[t].msgs, m)
@@ -415,7 +566,11 @@ func (g *jgen) tplFail(maxSubs int) *jScenario {
 		jPark(failCallCode, 0, failCallNth, 1500, jAbs(5, 0, 1)),
 		jPark(6, 0, 0, 1000, jAbs(30, 0, 1)),
 	}
-	switch g.r.Intn(10) {
+	parkAt := g.r.Intn(10)
+	if late {
+		parkAt = 2
+	}
+	switch parkAt {
 	case 0, 1:
 	case 2, 3, 4, 5:
 		s.parks = append(s.parks, menu[0])
@@ -424,7 +579,7 @@ func (g *jgen) tplFail(maxSubs int) *jScenario {
 	case 9:
 		s.parks = append(s.parks, menu[0], rng.Pick(g.r, menu[2:]))
 	}
-	if g.r.Chance(1, 4) {
+	if !late && g.r.Chance(1, 4) {
 		s.shuts = append(s.shuts, jShutSpec{start: jEv(rng.Pick(g.r, []uint64{28, 29, 5}), 0)})
 	}
 	s.shuts = append(s.shuts, jFinalShut())
@@ -460,9 +615,44 @@ func (g *jgen) plainPubs(s *jScenario, threads, lo, hi int, topic uint64, start 
 func (g *jgen) tplShutdown(maxSubs int) (*jScenario, string) {
 	s := g.base()
 	topic := uint64(g.r.Intn(3))
-	variant := g.r.Intn(8)
+	variant := g.r.Intn(10)
 	name := ""
 	switch variant {
+	case 8, 9:
+		// Shutdown closes j.done while the loop is inside a call into the replayer - the Replay for a subscriber it
+		// has accepted and not yet registered, or the Put of a message it has taken - whatever that call then
+		// answers (ok, an error, a panic): the loop is held inside the scripted wrapper until shut.closed
+		name = "during-replayer-call"
+		g.plainSubs(s, 1+g.r.Intn(2), topic)
+		early := uint64(len(s.subs))
+		if g.r.Chance(3, 5) {
+			name += "/replay"
+			i := early
+			late := jSubSpec{topics: []uint64{topic}, start: jEvN(34, jAny, early)}
+			if g.r.Chance(1, 4) {
+				late.hasCancel, late.cancel = true, jEv(rng.Pick(g.r, []uint64{41, 18}), rng.Pick(g.r, []uint64{i, jAny}))
+			}
+			s.subs = append(s.subs, late)
+			// the k-th Replay call is the k-th subscription the loop takes: the late one is the last
+			s.repScript = append(jZeros(int(early)), rng.Pick(g.r, []uint64{0, g.werr(), g.werr(), 98}))
+			if g.r.Bool() {
+				g.plainPubs(s, 1, 1, 2, topic, nil)
+			}
+			s.parks = append(s.parks, jPark(41, i, 0, 2500, jAbs(18, jAny, 1)))
+			s.shuts = append(s.shuts, jShutSpec{start: jEv(rng.Pick(g.r, []uint64{41, 41, 31, 3}), i)})
+		} else {
+			name += "/put"
+			// one publisher thread: the k-th Put call is the k-th message
+			g.plainPubs(s, 1, 1, 3, topic, jEvN(34, jAny, early))
+			p := uint64(g.r.Intn(jToks(s)))
+			s.putScript = append(jZeros(int(p)), rng.Pick(g.r, []uint64{0, g.perr(), g.perr(), 98}))
+			s.parks = append(s.parks, jPark(40, p, 0, 2500, jAbs(18, jAny, 1)))
+			s.shuts = append(s.shuts, jShutSpec{start: jEv(rng.Pick(g.r, []uint64{25, 25, 12}), p)})
+			if g.r.Chance(1, 3) {
+				// somebody subscribes while the loop is held there
+				s.subs = append(s.subs, jSubSpec{topics: []uint64{topic}, start: jEv(25, p)})
+			}
+		}
 	case 0:
 		name = "publishers-parked-at-enter"
 		g.plainSubs(s, 1+g.r.Intn(2), topic)
@@ -683,11 +873,14 @@ func (g *jgen) tplRepFault(maxSubs int) (*jScenario, string) {
 	name := ""
 	nsubs := 1 + g.r.Intn(maxSubs)
 	g.plainSubs(s, nsubs, topic)
-	fault := func(panics bool) uint64 {
-		if panics {
+	fault := func(panics, put bool) uint64 {
+		switch {
+		case panics:
 			return 98
+		case put:
+			return g.perr()
 		}
-		return 100 + uint64(g.r.Intn(5))
+		return g.werr()
 	}
 	switch variant {
 	case 0, 1:
@@ -697,16 +890,16 @@ func (g *jgen) tplRepFault(maxSubs int) (*jScenario, string) {
 		}
 		g.plainPubs(s, 1+g.r.Intn(2), 2, 4, topic, jEvN(34, jAny, uint64(nsubs)))
 		ntok := jToks(s)
-		s.putScript = append(jZeros(g.r.Intn(ntok)), fault(variant == 1))
+		s.putScript = append(jZeros(g.r.Intn(ntok)), fault(variant == 1, true))
 		if g.r.Chance(1, 3) {
-			s.putScript = append(s.putScript, 0, fault(false))
+			s.putScript = append(s.putScript, 0, fault(false, true))
 		}
 	case 2, 3:
 		name = "replay-error"
 		if variant == 3 {
 			name = "replay-panic"
 		}
-		s.repScript = append(jZeros(g.r.Intn(nsubs)), fault(variant == 3))
+		s.repScript = append(jZeros(g.r.Intn(nsubs)), fault(variant == 3, false))
 		if g.r.Bool() {
 			for i := 1; i < nsubs; i++ {
 				s.subs[i].start = jEvN(31, jAny, uint64(i)) // Subscribe calls reach the loop one after the other
@@ -723,20 +916,20 @@ func (g *jgen) tplRepFault(maxSubs int) (*jScenario, string) {
 		for k, n := 0, jToks(s); k < n; k++ {
 			v := uint64(0)
 			if g.r.Chance(1, 4) {
-				v = fault(g.r.Chance(1, 3))
+				v = fault(g.r.Chance(1, 3), true)
 			}
 			s.putScript = append(s.putScript, v)
 		}
 		for k := 0; k < nsubs; k++ {
 			v := uint64(0)
 			if g.r.Chance(1, 3) {
-				v = fault(g.r.Chance(1, 3))
+				v = fault(g.r.Chance(1, 3), false)
 			}
 			s.repScript = append(s.repScript, v)
 		}
 	}
 	if g.r.Chance(1, 4) {
-		s.subs[0].script = append(jZeros(g.r.Intn(4)), 100+uint64(g.r.Intn(5)))
+		s.subs[0].script = append(jZeros(g.r.Intn(4)), g.werr())
 		s.subs[0].selfCancel = g.r.Bool()
 	}
 	s.shuts = []jShutSpec{jFinalShut()}
@@ -762,8 +955,11 @@ func (g *jgen) tplFaultSeq(n, maxSubs int) (*jScenario, string) {
 	f1, f2 := n%4, (n/4)%4
 	fault := func(f int) jSeqStep {
 		v := uint64(98)
-		if f%2 == 0 {
-			v = 100 + uint64(g.r.Intn(5))
+		switch {
+		case f == 0:
+			v = g.werr()
+		case f == 2:
+			v = g.perr()
 		}
 		return jSeqStep{sub: f < 2, verdict: v}
 	}
@@ -781,7 +977,10 @@ func (g *jgen) tplFaultSeq(n, maxSubs int) (*jScenario, string) {
 	for k, m := 0, g.r.Intn(3); k < m; k++ {
 		st := jSeqStep{sub: g.r.Bool()}
 		if g.r.Chance(1, 5) {
-			st.verdict = 100 + uint64(g.r.Intn(5)) // matters only while the replayer is still in use
+			st.verdict = g.werr() // matters only while the replayer is still in use
+			if !st.sub {
+				st.verdict = g.perr()
+			}
 		}
 		steps = append(steps, st)
 	}
@@ -796,7 +995,7 @@ func (g *jgen) tplFaultSeq(n, maxSubs int) (*jScenario, string) {
 	g.plainSubs(s, nby, topic)
 	s.repScript = jZeros(nby)
 	if nby > 0 && g.r.Chance(1, 4) {
-		s.subs[0].script = append(jZeros(g.r.Intn(4)), 100+uint64(g.r.Intn(5)))
+		s.subs[0].script = append(jZeros(g.r.Intn(4)), g.werr())
 		s.subs[0].selfCancel = g.r.Bool()
 	}
 	var prev jCond
@@ -893,7 +1092,7 @@ func (g *jgen) tplShapes(maxSubs int) (*jScenario, string) {
 	}
 	if g.r.Chance(1, 5) {
 		v := g.r.Intn(len(s.subs))
-		s.subs[v].script = append(jZeros(g.r.Intn(5)), 100+uint64(g.r.Intn(5)))
+		s.subs[v].script = append(jZeros(g.r.Intn(5)), g.werr())
 		s.subs[v].selfCancel = g.r.Bool()
 	}
 	if g.r.Chance(1, 6) {
@@ -939,7 +1138,7 @@ func (g *jgen) tplRandom(maxSubs int) *jScenario {
 		ui := uint64(i)
 		x := jSubSpec{topics: g.topics(1+g.r.Intn(3), universe), start: g.randCondSub(ui, ntok, nsubs)}
 		if g.r.Chance(2, 5) {
-			x.script = append(jZeros(g.r.Intn(6)), 100+uint64(g.r.Intn(5)))
+			x.script = append(jZeros(g.r.Intn(6)), g.werr())
 			x.selfCancel = g.r.Bool()
 		}
 		switch g.r.Intn(8) {
@@ -993,7 +1192,7 @@ func (g *jgen) tplRandom(maxSubs int) *jScenario {
 		for k := 0; k < ntok; k++ {
 			v := uint64(0)
 			if g.r.Chance(1, 5) {
-				v = rng.Pick(g.r, []uint64{98, 100, 101})
+				v = rng.Pick(g.r, []uint64{98, g.perr(), g.perr()})
 			}
 			s.putScript = append(s.putScript, v)
 		}
@@ -1002,7 +1201,7 @@ func (g *jgen) tplRandom(maxSubs int) *jScenario {
 		for k := 0; k < nsubs; k++ {
 			v := uint64(0)
 			if g.r.Chance(1, 4) {
-				v = rng.Pick(g.r, []uint64{98, 100, 101})
+				v = rng.Pick(g.r, []uint64{98, g.werr(), g.werr()})
 			}
 			s.repScript = append(s.repScript, v)
 		}
@@ -1012,17 +1211,24 @@ func (g *jgen) tplRandom(maxSubs int) *jScenario {
 
 func genJoe(c *Ctx) {
 	g := &jgen{c: c, r: c.R}
-	mult, maxSubs := 2, 4 // quick: 896 scenarios, about 6 s
+	mult, maxSubs := 2, 4 // quick: 976 scenarios, about 7 s
 	if c.Thorough {
-		mult, maxSubs = 20, 8 // thorough: 8960 scenarios, about 100 s
+		mult, maxSubs = 20, 8 // thorough: 9760 scenarios, about 100 s
 	}
 	for n := 0; n < 60*mult; n++ {
 		g.emit("joe", "topics", g.tplTopics(maxSubs))
 	}
 	for n := 0; n < 80*mult; n++ {
-		g.emit("joe", "failure-x-cancel", g.tplFail(maxSubs-1))
+		g.emit("joe", "failure-x-cancel", g.tplFail(maxSubs-1, false))
 	}
-	for n := 0; n < 90*mult; n++ {
+	for n := 0; n < 30*mult; n++ {
+		s := g.tplFail(maxSubs-1, true)
+		if n%3 != 0 {
+			s.kind = 4 // two in three against a Joe without a replayer
+		}
+		g.emit("joe", "failure-then-late-unsubscription", s)
+	}
+	for n := 0; n < 100*mult; n++ {
 		s, name := g.tplShutdown(maxSubs)
 		g.emit("joe", "shutdown/"+name, s)
 	}
@@ -1220,6 +1426,22 @@ func (g *jgen) tplResume(maxSubs, grid int) (*jScenario, string, string) {
 			continue
 		}
 		if auto {
+			if prev := len(before.msgs) - 1; prev >= 0 && !before.msgs[prev].idopt.Present() && g.r.Chance(1, 6) {
+				// the publisher's prebuilt message (a heartbeat) goes out once more: one more event, with the next ID
+				src := prev
+				if before.msgs[prev].same != 0 {
+					src = int(before.msgs[prev].same - 1)
+				}
+				if g.r.Bool() {
+					src = g.r.Intn(prev + 1)
+					for before.msgs[src].same != 0 {
+						src = int(before.msgs[src].same - 1)
+					}
+				}
+				if !before.msgs[src].idopt.Present() {
+					m.same = uint64(src + 1)
+				}
+			}
 			ids = append(ids, strconv.Itoa(len(ids)))
 		} else {
 			id := "m" + strconv.Itoa(p)
@@ -1305,8 +1527,27 @@ func (g *jgen) tplResume(maxSubs, grid int) (*jScenario, string, string) {
 			res.idopt = jID("007")
 		}
 	}
-	if g.r.Chance(1, 6) {
-		res.script = append(jZeros(g.r.Intn(4)), 100+uint64(g.r.Intn(5)))
+	// how many events lie after the presented one (an upper bound: some may not match the topics)
+	replayLen := 0
+	switch present {
+	case "oldest":
+		replayLen = len(buffered) - 1
+	case "middle":
+		replayLen = len(buffered) - 1 - len(buffered)/2
+	case "evicted":
+		if auto {
+			replayLen = len(buffered)
+		}
+	}
+	switch {
+	case replayLen > 0 && g.r.Chance(1, 4):
+		// ONE Send of the replay fails - any position, the first to the last - and every call after it (the Flush that
+		// ends a replay, live Sends) would succeed: the replay ends there, the subscription is refused with that error
+		res.script = append(jZeros(g.r.Intn(replayLen)), g.werr())
+		res.selfCancel = g.r.Chance(1, 3)
+		g.c.Count("replay:one-send-of-the-replay-fails")
+	case g.r.Chance(1, 6):
+		res.script = append(jZeros(g.r.Intn(4)), g.werr())
 		res.selfCancel = g.r.Bool()
 	}
 	if g.r.Chance(1, 5) {
@@ -1441,7 +1682,7 @@ func (g *jgen) tplReplayRandom(maxSubs int) *jScenario {
 			x.start = jEv(12, uint64(g.r.Intn(ntok)))
 		}
 		if g.r.Chance(1, 5) {
-			x.script = append(jZeros(g.r.Intn(5)), 100+uint64(g.r.Intn(5)))
+			x.script = append(jZeros(g.r.Intn(5)), g.werr())
 			x.selfCancel = g.r.Bool()
 		}
 		if g.r.Chance(1, 5) {
